@@ -151,7 +151,8 @@ inductive FPC
   | setRel (v : Nat)                      -- leaving the `with` of `__setitem__`
   | extract                               -- `self._extract(getter, …)`
   | store (v : Nat)                       -- `self._raw[name] = sensor_data`
-  | rel (v : Nat)                         -- leaving the `with` of `get`; return
+  | rel (v : Nat)                         -- leaving the `with` of `get`
+  | ret (v : Nat)                         -- `return sensor_data` (lock level already given back)
   deriving DecidableEq, Repr, Inhabited
 
 structure Frame where
@@ -233,12 +234,13 @@ def step (c : Cfg) (s : State) (t : Tid) : Option State :=
       some { s with cache := upd s.cache k (some (.val v)),
                     th := upd s.th t { l with stack := ⟨k, .rel v⟩ :: below } }
     | .rel v =>
+      some { s with owner := releaseOwner s, depth := s.depth - 1,
+                    th := upd s.th t { l with stack := ⟨k, .ret v⟩ :: below } }
+    | .ret v =>
       match below with
-      | [] => some { s with owner := releaseOwner s, depth := s.depth - 1,
-                            th := upd s.th t { l with stack := [], results := l.results ++ [(k, v)] } }
+      | [] => some { s with th := upd s.th t { l with stack := [], results := l.results ++ [(k, v)] } }
       | ⟨k', .deps (_ :: r) acc⟩ :: more =>
-        some { s with owner := releaseOwner s, depth := s.depth - 1,
-                      th := upd s.th t { l with stack := ⟨k', .deps r (acc ++ [v])⟩ :: more } }
+        some { s with th := upd s.th t { l with stack := ⟨k', .deps r (acc ++ [v])⟩ :: more } }
       | _ :: _ => none
 
 def run (c : Cfg) : State → List Tid → Option State
@@ -254,6 +256,7 @@ inductive Reach (c : Cfg) (n : Nat) (prog : Tid → List Nat) : State → Prop
 /-- number of lock acquisitions an activation at this pc is holding -/
 def holds : FPC → Nat
   | .acq => 0
+  | .ret _ => 0
   | .setStore _ | .setRel _ => 2
   | _ => 1
 
@@ -265,18 +268,18 @@ def held : List Frame → Nat
 def active (s : State) (t : Tid) : Bool := !((s.th t).stack.isEmpty && (s.th t).todo.isEmpty)
 
 /-- what the harness can see: owner, depth, which of the keys `ks` hold extracted values,
-    per thread the number of lock-holding levels and whether it is finished -/
+    per thread the keys of its active `get` calls (innermost first) -/
 structure Obs where
   owner : Option Tid
   depth : Nat
   cached : List Bool
-  helds : List Nat
+  stacks : List (List Nat)
   deriving DecidableEq, Repr
 
 def obs (n : Nat) (ks : List Nat) (s : State) : Obs :=
   ⟨s.owner, s.depth,
    ks.map (fun k => match s.cache k with | some (.val _) => true | _ => false),
-   (List.range n).map fun t => held (s.th t).stack⟩
+   (List.range n).map fun t => (s.th t).stack.map (·.key)⟩
 
 def advance (c : Cfg) (n : Nat) (ks : List Nat) (t : Tid) (o : Obs) : Nat → State → Option (Nat × State)
   | 0, s => if obs n ks s = o then some (0, s) else none
